@@ -230,8 +230,26 @@ mod private {
                 _ => vec![34, 1, 21, 0, 33],
             };
         }
-        match if cx.tier == Tier::Miri { 99 } else { cx.rng.below(3) } {
+        match if cx.tier == Tier::Miri { 99 } else { cx.rng.below(16) % 4 } {
             99 => {}
+            3 => {
+                // rarely: words far beyond 75 letters (growth steps 79 -> 119 -> 179 -> 269 -> 404),
+                // and pairs of two long words one or two letters apart
+                if cx.rng.chance(1, 4) {
+                    for _ in 0..4 {
+                        lens.push(cx.rng.range(76, 420));
+                        lens.push(cx.rng.below(30));
+                    }
+                    cx.count("direct call sequences with words of 76-420 letters");
+                } else {
+                    for _ in 0..6 {
+                        let a = cx.rng.range(15, 80);
+                        lens.push(a);
+                        lens.push(a + cx.rng.below(3));
+                        lens.push(a.saturating_sub(cx.rng.below(3)));
+                    }
+                }
+            }
             0 => {
                 // ascending past each growth step
                 let start = cx.rng.below(6);
@@ -391,7 +409,11 @@ impl Prims {
         for round in 0..3 {
             let lang = *cx.rng.pick(&LANGS);
             let alpha = gen::lower_alphabet(lang);
-            let n = if cx.tier == Tier::Miri { cx.rng.range(1, 4) } else { cx.rng.range(1, 40) };
+            let big = cx.tier != Tier::Miri && cx.rng.chance(1, 12);
+            let n = if cx.tier == Tier::Miri { cx.rng.range(1, 4) } else if big { *cx.rng.pick(&[127, 128, 129, 255, 256, 257, 600, 1024, 1500]) } else { cx.rng.range(1, 40) };
+            if big {
+                cx.count("store-level rounds with 127-1500 records");
+            }
             let mut recs: Vec<Rec> = vec![];
             for i in 0..n {
                 let t = match cx.rng.below(4) {
@@ -401,7 +423,25 @@ impl Prims {
                 };
                 recs.push((i, t, i));
             }
-            let st = St::build_sentinel(lang, &recs, gen::rand_limit(&mut cx.rng));
+            let mut st = St::build_sentinel(lang, &recs, gen::rand_limit(&mut cx.rng));
+            if cx.tier != Tier::Miri && cx.rng.chance(1, 4) {
+                // add / clear / re-add histories: counters, posting lists and record vector must stay in step
+                let keep = cx.rng.below(recs.len() + 1);
+                st.store.clear();
+                recs.truncate(keep);
+                if cx.rng.chance(1, 2) {
+                    recs.push((recs.len(), String::new(), 0));
+                    recs.push((recs.len(), "---".to_string(), 0));
+                }
+                for r in &recs {
+                    st.add(r);
+                }
+                if recs.is_empty() {
+                    recs.push((0, "metal".to_string(), 1));
+                    st.add(&recs[0]);
+                }
+                cx.count("store-level rounds with clear and re-add");
+            }
             let nq = if cx.tier == Tier::Miri { 3 } else { 8 };
             for k in 0..nq {
                 let t = cx.rng.pick(&recs).1.clone();
@@ -456,7 +496,7 @@ impl Prop for Prims {
             Which::Distance => vec![("exhaustive pairs", 100000, 2000000), ("prefix cells compared", 1000000, 20000000), ("pairs where a discount lowered the distance", 10000, 100000), ("random pairs beyond capacity 20", 500, 5000), ("long pairs with sampled prefix cells", 200, 2000), ("hook matrix growths", 3, 3), ("hook matrix max size", 50, 50)],
             Which::Jaccard => vec![("exhaustive pairs", 100000, 1500000), ("pairs with partial overlap", 20000, 200000), ("pairs beyond the initial capacity of 20", 500, 5000), ("hook jaccard accesses", 100000, 1000000)],
             Which::Index => vec![("prepare calls", 5000, 50000), ("capped calls", 500, 5000), ("calls with ties at the cut", 100, 1000), ("size 0", 300, 3000), ("corpus prepare calls", 200, 2000)],
-            Which::Unchecked => vec![("direct distance/similarity calls", 20000, 200000), ("direct calls beyond capacity 20", 5000, 50000), ("store-level searches", 5000, 50000), ("hook matrix accesses", 1000000, 10000000), ("hook matrix growths", 3, 3), ("hook matrix max size", 50, 50), ("hook counter accesses", 10000, 100000), ("hook cost accesses", 100000, 1000000), ("hook jaccard accesses", 10000, 100000)],
+            Which::Unchecked => vec![("direct distance/similarity calls", 20000, 200000), ("direct calls beyond capacity 20", 5000, 50000), ("store-level searches", 5000, 50000), ("store-level rounds with 127-1500 records", 200, 2000), ("store-level rounds with clear and re-add", 500, 5000), ("direct call sequences with words of 76-420 letters", 200, 2000), ("hook matrix accesses", 1000000, 10000000), ("hook matrix growths", 3, 3), ("hook matrix max size", 50, 50), ("hook counter accesses", 10000, 100000), ("hook cost accesses", 100000, 1000000), ("hook jaccard accesses", 10000, 100000)],
         }
     }
     #[allow(unused_variables)]
